@@ -13,6 +13,7 @@ What the rewrite changes (everything else is compiled verbatim by CPython):
       proxy-aware model (npm), absent third-party packages are stubs whose use is `Undecided`
   R6  decorators functools.lru_cache / numba.jit are identity (see DESIGN 2.1)
   R7  docstrings are dropped; annotations are dropped
+  R8  `[...] * e` / `e * [...]` (list literal repetition) -> __vc__.list_mul (symbolic repetition count)
 """
 from __future__ import annotations
 import ast
@@ -188,6 +189,13 @@ class Rewriter(ast.NodeTransformer):
                 return ast.copy_location(_call(_vc("isnone" if isinstance(node.ops[0], ast.Is) else "notnone"), l), node)
             if isinstance(l, ast.Constant) and l.value is None:
                 return ast.copy_location(_call(_vc("isnone" if isinstance(node.ops[0], ast.Is) else "notnone"), r), node)
+        return node
+
+    # ---- R8: `[...] * n` / `n * [...]` (list repetition with a possibly symbolic count)
+    def visit_BinOp(self, node):
+        self.generic_visit(node)
+        if isinstance(node.op, ast.Mult) and (isinstance(node.left, ast.List) or isinstance(node.right, ast.List)):
+            return ast.copy_location(_call(_vc("list_mul"), node.left, node.right), node)
         return node
 
     # ---- R3
@@ -380,6 +388,32 @@ class Runtime:
 
     def stop(self, why=""):
         raise StopPath(why)
+
+    @staticmethod
+    def list_mul(a, b):
+        if isinstance(a, list) and isinstance(b, (SV, SOpt)):
+            lst, n = a, b
+        elif isinstance(b, list) and isinstance(a, (SV, SOpt)):
+            lst, n = b, a
+        else:
+            return a * b
+        n = SV(z3int(n))
+        c = concrete_value(n)
+        if c is not None:
+            return lst * c
+        if len(lst) != 1:
+            raise Undecided("repetition of a multi-element list a symbolic number of times")
+        v = lst[0]
+        from .sym import _numkind
+        et = {"int": "int", "bool": "bool", "real": "real", "complex": "complex"}.get(_numkind(v))
+        if v is None:
+            et = "optint"
+        if et is None:
+            raise Undecided("repetition of a non-numeric list a symbolic number of times")
+        ln = ite(n > 0, n, 0)
+        from .sym import to_opt
+        vv = to_opt(v) if et == "optint" else v
+        return SList(et, lambda i: vv, SV(z3int(ln)))
 
     # ---- R3
     def comp(self, kind, elt, cond, it):
